@@ -255,7 +255,7 @@ def run_cjsontree_tie(ctx, out):
         "cjsontree_traces_validated_against_impl": len(hl), "cjsontree_wall_s": round(time.time() - t0, 1),
     })
     if fails:
-        fails.sort(key=lambda x: len(op_line(x[1])))
+        fails.sort(key=lambda x: (x[2].startswith("harness ended early"), len(op_line(x[1]))))   # a leak report at exit names no input: last
         clause, o, got = fails[0]
         obj = {"component": "cjsontree", "clauses": clause, "script": op_line(o), "implementation": got,
                "theorems": sorted({t for c in clause for t in THEOREMS.get(c, [])}),
